@@ -103,6 +103,7 @@ def jobs(tier, seed, prop):
     if not re.search(r'constexpr\s+double\s+num_tol\s*=\s*1\.E-12\s*;', mt):
         raise X.ExtractionBreak("Maths::num_tol is no longer 1.E-12; contracts/graddesc.c must follow")
     ndim, nit = (2, 3) if tier == "quick" else (2, 4)
+    pre_i = '#include "tsg_shim.h"\nint tsg_exc;\n#define TSG_NDIM 1\n#define TSG_NIT 2\n'      # the IEEE text is decided at the smallest size only (larger sizes exhaust memory)
     pre = '#include "tsg_shim.h"\nint tsg_exc;\n#define TSG_NDIM %d\n#define TSG_NIT %d\n' % (ndim, nit)
     R = X.Rules()
     t, info = graddesc.emit_adaptive(R, abstract_test=True)
@@ -110,9 +111,9 @@ def jobs(tier, seed, prop):
     if tier == "thorough":
         Ri = X.Rules()
         ti, infoi = graddesc.emit_adaptive(Ri)
-        out.append(Job("graddesc.adaptive.ieee", pre + '#line 1 "/verif/contracts/graddesc.c"\n' + cf.text(("text",)) + ti + cf.text(("harness",), ["h_GradientDescent_adaptive"]),
-                       "h_GradientDescent_adaptive", unwind=nit + 2, timeout=3000, backends=[["--refine-arithmetic"], ["--sat-solver", "cadical"]], functions=fl, info=infoi, replay=replay_any(prop),
-                       bounded="dimensions <= %d, max_iterations <= %d (full unwinding), IEEE descent test" % (ndim, nit),
+        out.append(Job("graddesc.adaptive.ieee", pre_i + '#line 1 "/verif/contracts/graddesc.c"\n' + cf.text(("text",)) + ti + cf.text(("harness",), ["h_GradientDescent_adaptive"]),
+                       "h_GradientDescent_adaptive", unwind=4, timeout=3000, backends=[["--refine-arithmetic"], ["--sat-solver", "cadical"]], functions=fl, info=infoi, replay=replay_any(prop),
+                       bounded="dimensions == 1, max_iterations <= 2 (full unwinding), IEEE descent test",
                        assumed=["callbacks func/grad/proj return arbitrary doubles", "computeStationarityResidual returns any value (stub)"],
                        label="GradientDescent (adaptive, projected) against F17 with the IEEE descent test"))
     out.append(Job("graddesc.adaptive", pre + '#line 1 "/verif/contracts/graddesc.c"\n' + cf.text(("text",)) + t + cf.text(("harness",), ["h_GradientDescent_adaptive"]),
